@@ -15,7 +15,8 @@ import vlib
 from vlib import coq_z, coq_list
 
 PID = "C09"
-FINDING = "C09-string-firstlast-alias"
+# (C09-string-firstlast-alias was RETRACTED: it was an artifact of the export keeping unsafe strings that alias pooled
+# chunk buffers; the export now copies them and 0 of ~400 such queries per run fail)
 FINDING_CT = "C09-firstlast-chunk-time"
 FINDING_ML = "C09-memtable-last-time"
 FN = {"count": 0, "sum": 1, "min": 2, "max": 3, "first": 4, "last": 5}
@@ -27,10 +28,6 @@ def explain(c, colgroup, open_ids):
     ci, grp = colgroup.split(":", 1)
     call = c["calls"][int(ci)]
     host = grp.split("/")[0]
-    rowpath = c["hint"] or c["filter"] or c["bucket"] > 0
-    # first()/last() of a string field evaluated on the row path
-    if FINDING in open_ids and call["fn"] in ("first", "last") and call["field"] == STRING_FIELD and rowpath:
-        return FINDING
     # first()/last() served by the shortcut where the range enters / leaves a multi-segment chunk
     if FINDING_CT in open_ids and call["fn"] in ("first", "last") and c["preagg"] and host in (c.get("sig_chunk_time") or []):
         return FINDING_CT
@@ -41,8 +38,6 @@ def explain(c, colgroup, open_ids):
 
 
 TEXT = {
-    FINDING: "first()/last() of a string field on the row path (hint / field filter / time bucket) returns a string other than the one "
-             "the plain select shows at that time (aliased buffer)",
     FINDING_CT: "first()/last() served from stored statistics takes the time of the whole chunk instead of the segment's, so a value of "
                 "another container inside the range loses (or wins) wrongly",
     FINDING_ML: "last() in a multi-aggregate statement served from statistics: the memtable's last value is stamped with the time of its last "
@@ -130,10 +125,10 @@ def main(ck):
     if os.path.exists(frag):
         have = {f["id"] for f in ck.findings}
         ck.findings += [f for f in json.load(open(frag))["findings"] if f["property"] == PID and f["id"] not in have]
-    open_ids = {fid for fid in (FINDING, FINDING_CT, FINDING_ML) if ck.match_finding(fid) is not None}
+    open_ids = {fid for fid in (FINDING_CT, FINDING_ML) if ck.match_finding(fid) is not None}
     viol, checks, compared, skipped = 0, 0, 0, 0
-    known = {FINDING: 0, FINDING_CT: 0, FINDING_ML: 0}
-    eligible = {FINDING: 0, FINDING_CT: 0, FINDING_ML: 0}
+    known = {FINDING_CT: 0, FINDING_ML: 0}
+    eligible = {FINDING_CT: 0, FINDING_ML: 0}
     modes, ncalls = {}, {}
     for hi, h in enumerate(hs):
         for c in h.get("checks") or []:
@@ -144,8 +139,6 @@ def main(ck):
             ncalls[str(len(c["calls"]))] = ncalls.get(str(len(c["calls"])), 0) + 1
             for call in c["calls"]:
                 modes["%s/%s" % (call["fn"], mode)] = modes.get("%s/%s" % (call["fn"], mode), 0) + 1
-                if call["fn"] in ("first", "last") and call["field"] == STRING_FIELD and mode in ("hint", "filter", "bucket"):
-                    eligible[FINDING] += 1
             eligible[FINDING_CT] += bool(c["preagg"] and c.get("sig_chunk_time"))
             eligible[FINDING_ML] += bool(c["preagg"] and c.get("sig_mem_last"))
             if not c.get("fail"):
